@@ -81,6 +81,38 @@ def enum_scripts(th):
                         for j in range(1, k + 1):
                             out.append(dict(callers=k, steps=starts + [st("arrive")] * j + [st("tick"), st("tick"), st("close"), st("tick")],
                                             src="enum-multi-arrive", mode=mode, side=side, errby=errby))
+    # events INSIDE a call (hook points of the wait loops used as scheduler gates): the caller is held after it has loaded its deadline
+    # (g=1) or after its locked check found nothing and before it parks (g=2) while a deadline is set / shortened / extended / cleared,
+    # a unit of the resource arrives, the session is closed or its socket fails; then time passes. SessionWait.tla has these
+    # interleavings (its labels are exactly these points); scripts executed only while callers are parked cannot reach them.
+    def gst(x, g, inner):
+        d = st("start", x)
+        d["g"] = g
+        d["in"] = inner
+        return d
+    for mode in ("read", "write"):
+        for side, errby in (("client", "fail"), ("server", "fail"), ("server", "lclose")):
+            for g in (1, 2):
+                for pre in (None, 2, 4):
+                    acts = [[st("setdl", v=2)], [st("setdl", v=3)], [st("setdl", v=0)], [st("setdl", v=4)], [st("arrive")], [st("close")],
+                            [st("sockerr")], [st("setdl", v=0), st("setdl", v=3)], [st("setdl", v=2), st("arrive")]]
+                    for inner in acts:
+                        if errby == "lclose" and inner[0]["ev"] != "sockerr":
+                            continue
+                        steps = [st("setdl", v=pre)] if pre is not None else []
+                        steps.append(gst("r1", g, inner))
+                        steps += [st("tick")] * 5
+                        if inner[-1]["ev"] not in ("close", "sockerr"):
+                            steps += [st("arrive"), st("tick")]
+                        out.append(dict(callers=1, steps=steps, src="enum-gate", mode=mode, side=side, errby=errby))
+                # a second caller held inside its call while the first one is parked
+                for inner in ([st("arrive")], [st("arrive"), st("arrive")], [st("close")], [st("sockerr")], [st("setdl", v=2)]):
+                    if errby == "lclose" and inner[0]["ev"] != "sockerr":
+                        continue
+                    steps = [st("start", "r1"), st("tick"), gst("r2", g, inner)] + [st("tick")] * 4
+                    if inner[-1]["ev"] not in ("close", "sockerr"):
+                        steps += [st("arrive"), st("arrive"), st("tick")]
+                    out.append(dict(callers=2, steps=steps, src="enum-gate-multi", mode=mode, side=side, errby=errby))
     if not th:
         # quick tier: every third deadline script (rotating with the seed), all close / error scripts
         r = vlib.seed() % 3
